@@ -27,7 +27,7 @@ CDF_BOUND = 3e-4
 
 @st.composite
 def cases(draw, max_n=3000, cv=False):
-    fam = draw(st.sampled_from(["normal", "t2", "bimodal", "uniform", "rounded"]))
+    fam = draw(st.sampled_from(["normal", "t2", "bimodal", "uniform", "rounded", "counts"]))
     n = draw(st.one_of(st.integers(3, 12), st.integers(3, 200), st.integers(3, 400 if cv else max_n)))
     mode = "cv" if cv else draw(st.sampled_from(["rule", "rule", "user", "user", "user_wide"]))
     return {"seed": draw(st.integers(0, 2**31)), "family": fam, "n": n,
@@ -49,11 +49,13 @@ def make_sample(case):
         z = np.where(g.random(n) < 0.4, g.normal(-2.5, 0.5, n), g.normal(1.5, 1.0, n))
     elif fam == "uniform":
         z = g.uniform(-1.7, 1.7, n)
+    elif fam == "counts":
+        z = np.round(g.normal(size=n) * 3)
     else:
         z = np.round(g.normal(size=n) * 2) / 2
     if np.unique(z).size < 2:
         z[0] += 1.0
-    scale = 10.0 ** case["log_scale"]
+    scale = 10.0 ** case["log_scale"] if fam != "counts" else 1.0     # whole numbers (which may be held in an integer array)
     return (case["loc_units"] + z) * scale, scale
 
 
@@ -185,6 +187,17 @@ def body_faithful(case, ctx):
                 raise Violation(f"int-points:{tag}", f"{case['family']} n={sample.size} h={h:.4g}: evaluation at whole-number points given as {name}: pdf({xi[sel][k]!r}) = {pi[k]!r} (exact {epi[sel][k]!r}), "
                                                      f"cdf = {ci[k]!r} (exact {eci[sel][k]!r})")
         ctx.event("integer-eval-points")
+    # a whole-number sample held in an integer array / list of ints is the same sample
+    if case["family"] == "counts" and np.all(sample == np.round(sample)):
+        for name, alt in (("int64 array", sample.astype(np.int64)), ("int32 array", sample.astype(np.int32)), ("list of ints", [int(v) for v in sample])):
+            kde_i = build(alt, kw)
+            with np.errstate(all="ignore"):
+                pi_, ci_ = np.asarray(kde_i(x.copy()), dtype=float), np.asarray(kde_i.cdf(x.copy()), dtype=float)
+            if abs(float(kde_i.h) - h) > 1e-12 * h or np.any(np.abs(pi_ - p) > 1e-12 * unit + 1e-9 * p) or np.any(np.abs(ci_ - c) > 1e-9):
+                k = int(np.argmax(np.abs(pi_ - p)))
+                raise Violation(f"int-sample:{tag}", f"n={sample.size}: the estimate built from the sample as {name} (h={float(kde_i.h)!r}, pdf({x[k]!r})={pi_[k]!r}) differs from "
+                                                     f"the one built from the same numbers as float64 (h={h!r}, pdf={p[k]!r})")
+        ctx.event("integer-sample")
     # order of the sample irrelevant
     kde2 = build(sample[rngctl.rng(case["seed"], 5).permutation(sample.size)], kw)
     with np.errstate(all="ignore"):
